@@ -429,7 +429,9 @@ static void do_call (int step, std::vector<std::string> &a) {
   int n = 0;
   begin_evaluation ();
   for (size_t i = 3; i < a.size (); i++, n++) push_arg (a[i]);
+  object_t *save_cg = command_giver;   // like call_out() and the backend loop: the command giver does not outlive the evaluation
   svalue_t *ret = apply (a[2].c_str (), ob, n, ORIGIN_DRIVER);
+  command_giver = save_cg;
   pop_context (&econ);
   if (!ret) { rec_begin (step, "nofn"); rec_end (); (void) st; return; }
   rec_begin (step, "val");
